@@ -359,22 +359,24 @@ class GraphModels:
             o = st.heap[recv.id]
             old_term = NAME_LIST.dt.mk(o.n, o.elems)
             mb = ex.models._iter_member(ex, args[0], TStr)
-            # same list as the base model (old elements kept, the iterable's elements appended in iteration order), but
-            # described by a fresh array + axioms rather than by a lambda term (nested lambdas make z3 give up)
-            seq = ex.to_iter(args[0], lineno)
-            bi = st.fresh_int("bi")
-            e = TStr.embed(st, seq.elem(bi))
-            oldn, olde = o.n, o.elems
-            ne = st.fresh_const("xel", olde.sort())
-            i = z3.Int("i!lx")
-            st.assume(_forall([i], z3.Implies(z3.And(0 <= i, i < oldn), ne[i] == olde[i]), patterns=[ne[i]]))
-            st.assume(_forall([i], z3.Implies(z3.And(oldn <= i, i < oldn + seq.n), ne[i] == z3.substitute(e, (bi, i - oldn))), patterns=[ne[i]]))
-            o.elems, o.n = ne, oldn + seq.n
-            ex.writeback(o)
+            ex.models.list_method(ex, recv, o, "extend", args, kwargs, lineno)
             new_term = NAME_LIST.dt.mk(o.n, o.elems)
             k = z3.Const("k!lx", StrS)
             st.assume(_forall([k], lset(new_term)[k] == z3.Or(lset(old_term)[k], z3.simplify(mb[k])), patterns=[lset(new_term)[k]]))
             return None
+        if name == "intersection" and isinstance(recv, Ref) and isinstance(st.heap[recv.id], SetObj) and len(args) == 1 and \
+                getattr(ex.contract, "set_of_list_via_lset", False) and not st.heap[recv.id].is_empty_literal and st.heap[recv.id].k == TStr:
+            # same set as the base model, described by a fresh membership array + its definition instead of a lambda term
+            a = st.heap[recv.id]
+            mb = ex.models._iter_member(ex, args[0], TStr)
+            k = z3.Const("k!ix", StrS)
+            m = st.fresh_const("ixmem", NameSetS)
+            st.assume(_forall([k], m[k] == z3.And(a.member[k], z3.simplify(mb[k])), patterns=[m[k]]))
+            o = SetObj(TStr, m, st.fresh_int("setn"))
+            for f in o.wf_facts(st):
+                st.assume(f)
+            st.assume(o.n <= a.n)
+            return st.alloc(o)
         if name == "conv.is_continuous" and isinstance(recv, ConverterV):
             return SV(is_continuous(recv.d, z3.BoolVal(recv.which == "in"), TStr.embed(st, args[0])), TBool)
         if name == "has_names" and isinstance(recv, Ref) and getattr(st.heap[recv.id], "grammar_of", None) is not None:
@@ -583,8 +585,9 @@ class GraphModels:
         if name == "set" and len(args) == 1 and isinstance(args[0], Ref) and isinstance(st.heap[args[0].id], ListObj):
             lo = st.heap[args[0].id]
             org = lo.origin
-            if lo.t == TStr and not lo.is_empty_literal and org is not None and isinstance(org[2], tuple) and org[2][0] == "tuple":
-                # set(list of names held in a selection mapping): membership through lset (defined by lset_definition) instead of a lambda
+            in_selection = org is not None and isinstance(org[2], tuple) and org[2][0] == "tuple"
+            if lo.t == TStr and not lo.is_empty_literal and (in_selection or getattr(ex.contract, "set_of_list_via_lset", False)):
+                # set(list of names): membership through lset (defined by lset_definition, which the contracts assume) instead of a lambda
                 o = SetObj(TStr, lset(NAME_LIST.dt.mk(lo.n, lo.elems)), st.fresh_int("setn"))
                 for f in o.wf_facts(st):
                     st.assume(f)
@@ -609,7 +612,11 @@ class GraphModels:
                 and st.heap[args[0].id].k == TStr and not st.heap[args[0].id].is_empty_literal:
             # list(set of names): the base model (an enumeration), plus the (derivable) fact on the set of elements
             src = st.heap[args[0].id]
-            res = ex.models._list_from_iter(ex, ex.to_iter(args[0], lineno), args[0])
+            if getattr(ex.contract, "set_of_list_via_lset", False):
+                seq = ex.to_iter(args[0], lineno)
+                res = st.alloc(ListObj(TStr, seq.n, seq.keys))  # the enumeration array itself (no lambda)
+            else:
+                res = ex.models._list_from_iter(ex, ex.to_iter(args[0], lineno), args[0])
             ro = st.heap[res.id]
             k = z3.Const("k!lx", StrS)
             t = NAME_LIST.dt.mk(ro.n, ro.elems)
